@@ -20,6 +20,8 @@ pub struct Swarm {
     pub leading: u64,      // /16 chance of leading empty lines
     pub rich_chunks: bool, // rich chunk-size lines incl. invalid ones
     pub fault_rate: u64,   // /16 chance that a connection carries byte-changing faults
+    /// rare "long" mode: tokens up to ~70 KiB, hundreds of header lines (past 255), big capacities
+    pub long: bool,
 }
 
 impl Swarm {
@@ -34,13 +36,36 @@ impl Swarm {
             leading: *r.pick(&[0, 0, 2, 8]),
             rich_chunks: r.chance(1, 3),
             fault_rate: *r.pick(&[0, 0, 6, 9, 14]),
+            long: r.chance(1, 120),
+        }
+    }
+}
+
+/// log-uniform length in 100..~70000, with emphasis on powers of two and their neighbours
+fn long_len(r: &mut Rng) -> usize {
+    match r.below(4) {
+        0 => {
+            let p = 1usize << r.range(7, 16);
+            (p + r.below(5)).saturating_sub(2)
+        }
+        1 => *r.pick(&[255usize, 256, 257, 4095, 4096, 4097, 8192, 16384, 32767, 32768, 65535, 65536, 65537, 70000]),
+        _ => {
+            let bits = r.range(7, 16);
+            (1usize << bits) + r.below(1usize << bits)
         }
     }
 }
 
 fn len_tok(r: &mut Rng, sw: &Swarm) -> usize {
+    if sw.long && r.chance(1, 6) {
+        return long_len(r);
+    }
     if r.chance(sw.long_tok, 16) {
-        r.range(1, 100)
+        if r.chance(1, 5) {
+            r.range(100, 420)
+        } else {
+            r.range(1, 100)
+        }
     } else {
         r.range(1, 12)
     }
@@ -97,7 +122,17 @@ fn target(r: &mut Rng, sw: &Swarm) -> Vec<u8> {
 }
 
 fn value(r: &mut Rng, sw: &Swarm) -> Vec<u8> {
-    let n = if r.chance(sw.long_tok, 16) { r.below(101) } else { r.below(24) };
+    let n = if sw.long && r.chance(1, 6) {
+        long_len(r)
+    } else if r.chance(sw.long_tok, 16) {
+        if r.chance(1, 5) {
+            r.range(100, 420)
+        } else {
+            r.below(101)
+        }
+    } else {
+        r.below(24)
+    };
     let mut v: Vec<u8> = Vec::new();
     for i in 0..n {
         let b = match r.below(20) {
@@ -139,7 +174,10 @@ pub fn body_bytes(r: &mut Rng, n: usize) -> Vec<u8> {
 /// default configuration must report it, valid only if strict).
 fn header_block(r: &mut Rng, sw: &Swarm, extra: &[(Vec<u8>, Vec<u8>)], v: &mut Vec<u8>, hs: &mut Vec<(Vec<u8>, Vec<u8>)>) -> bool {
     let mut strict = true;
-    let n = if sw.max_headers == 0 { 0 } else { r.below(sw.max_headers + 1) };
+    let mut n = if sw.max_headers == 0 { 0 } else { r.below(sw.max_headers + 1) };
+    if sw.long && r.chance(1, 5) {
+        n = *r.pick(&[254usize, 255, 256, 257, 300, 1000]);
+    }
     let lenient_msg = r.chance(sw.lenient, 16);
     let invalid_msg = r.chance(sw.invalid, 16);
     let mut lines: Vec<Option<(Vec<u8>, Vec<u8>)>> = (0..n).map(|_| None).collect();
@@ -272,11 +310,11 @@ fn header_block(r: &mut Rng, sw: &Swarm, extra: &[(Vec<u8>, Vec<u8>)], v: &mut V
     strict
 }
 
-fn framing(r: &mut Rng, kind: Kind) -> (Body, Vec<(Vec<u8>, Vec<u8>)>) {
+fn framing(r: &mut Rng, kind: Kind, long: bool) -> (Body, Vec<(Vec<u8>, Vec<u8>)>) {
     let _ = kind;
     match r.below(6) {
         0 | 1 => {
-            let n = *r.pick(&[0usize, 1, 2, 5, 17, 64, 300]);
+            let n = if long && r.chance(1, 2) { *r.pick(&[4096usize, 8192, 9000, 20000]) } else { *r.pick(&[0usize, 1, 2, 5, 17, 64, 300]) };
             let name: &[u8] = *r.pick(&[&b"Content-Length"[..], &b"content-length"[..], &b"CONTENT-LENGTH"[..]]);
             (Body::Len(n), vec![(name.to_vec(), n.to_string().into_bytes())])
         }
@@ -309,7 +347,8 @@ fn chunk_line(r: &mut Rng, sw: &Swarm, size: u64, v: &mut Vec<u8>) {
         v.extend(wsrun(r, 2));
         if r.chance(1, 3) {
             v.push(b';');
-            for _ in 0..r.below(12) {
+            let n = if sw.long && r.chance(1, 2) { long_len(r) } else if r.chance(1, 8) { r.range(12, 300) } else { r.below(12) };
+            for _ in 0..n {
                 let b = *r.pick(b"abc=\"; \t\n\0\x7f\x80\xff;19");
                 v.push(b);
             }
@@ -456,7 +495,7 @@ pub fn message(r: &mut Rng, sw: &Swarm, kind: Kind, v: &mut Vec<u8>) -> MsgTruth
         }
         _ => {}
     }
-    let (body, extra) = if kind == Kind::Chunk { (Body::None, vec![]) } else { framing(r, kind) };
+    let (body, extra) = if kind == Kind::Chunk { (Body::None, vec![]) } else { framing(r, kind, sw.long) };
     let mut hs = Vec::new();
     let strict_h = header_block(r, sw, &extra, v, &mut hs);
     t.strict &= strict_h;
@@ -496,7 +535,8 @@ pub fn schedule(r: &mut Rng, len: usize) -> Vec<usize> {
             cuts.extend(a..b);
         }
         3 => {
-            let step = r.range(1, 64);
+            // long streams: at most ~48 deliveries, or re-parsing a growing buffer gets quadratic
+            let step = r.range(1, 64).max(len / 48);
             let mut p = step;
             while p < len {
                 cuts.push(p);
@@ -548,6 +588,42 @@ pub fn apply_fault(r: &mut Rng, wire: &mut Vec<u8>, heads: &[(usize, usize)]) ->
         r.below(wire.len())
     };
     let pal = |r: &mut Rng| if r.chance(3, 4) { *r.pick(PAL) } else { r.byte() };
+    // lane-aware corruption: a class-boundary byte somewhere inside a long token (a run of >= 16
+    // bytes without delimiters), so every lane of the 8/16/32-byte block scanners gets its turn
+    if r.chance(1, 4) && !heads.is_empty() {
+        let (s, e) = *r.pick(heads);
+        let e = e.min(wire.len());
+        let mut runs: Vec<(usize, usize)> = Vec::new();
+        let mut st = s;
+        for i in s..=e {
+            let delim = i == e || matches!(wire[i], b' ' | b':' | b'\r' | b'\n' | b'\t');
+            if delim {
+                if i - st >= 16 {
+                    runs.push((st, i));
+                }
+                st = i + 1;
+            }
+        }
+        if !runs.is_empty() {
+            let (a, b) = *r.pick(&runs);
+            let at = r.range(a, b - 1);
+            let byte = *r.pick(&[0x7fu8, 0x7f, 0x7f, 0x1f, 0x08, 0x00, 0x01, 0x0b, 0x0c, 0x80, 0xff, b'\t', b' ', b':', b'(', b'@']);
+            if wire[at] != byte {
+                wire[at] = byte;
+                // sometimes a second boundary byte right after it or exactly 32 bytes away
+                if r.chance(1, 4) {
+                    let second = *r.pick(&[0x08u8, 0x7f, 0x80, 0xe9, b'\t']);
+                    let off = *r.pick(&[1usize, 1, 8, 16, 32, 32, 64]);
+                    if at + off < b {
+                        wire[at + off] = second;
+                    } else if at >= a + off {
+                        wire[at - off] = second;
+                    }
+                }
+                return Some(Fault { kind: "lane", at, arg: byte as u64 });
+            }
+        }
+    }
     Some(match r.below(10) {
         0 | 1 => {
             let bit = r.below(8);
@@ -641,7 +717,10 @@ fn draw_entry(r: &mut Rng, cfg: u8) -> u8 {
     }
 }
 
-fn draw_cap(r: &mut Rng) -> usize {
+fn draw_cap(r: &mut Rng, long: bool) -> usize {
+    if long && r.chance(1, 2) {
+        return *r.pick(&[255usize, 256, 257, 300, 1024]);
+    }
     match r.below(8) {
         0 => 0,
         1 => 1,
@@ -726,7 +805,7 @@ pub fn gen_conn(seed: u64, o: &GenOpts) -> Trace {
     t.seed = seed;
     t.cfg = draw_cfg(&mut rk, o);
     t.entry = draw_entry(&mut rk, t.cfg);
-    t.cap = draw_cap(&mut rk);
+    t.cap = draw_cap(&mut rk, sw.long);
     t.backend = if rk.chance(1, 2) { 0 } else { rk.range(1, 3) as u8 };
     t.reuse = *rk.pick(&[0u8, 0, 1, 1, 2, 3]);
     t.arr_guard = rk.chance(3, 4);
@@ -756,12 +835,13 @@ pub fn gen_sweep(seed: u64, o: &GenOpts) -> Trace {
     let (mut rw, mut rf, mut rk) = (base.split(1), base.split(2), base.split(4));
     let mut sw = Swarm::draw(&mut rk);
     sw.max_headers = sw.max_headers.min(8);
+    sw.long = sw.long && rk.chance(1, 2);
     let kind = *rk.pick(o.kinds);
     let mut t = Trace::empty(Scen::Sweep, kind);
     t.seed = seed;
     t.cfg = draw_cfg(&mut rk, o);
     t.entry = draw_entry(&mut rk, t.cfg);
-    t.cap = draw_cap(&mut rk);
+    t.cap = draw_cap(&mut rk, sw.long);
     t.backend = if rk.chance(1, 2) { 0 } else { rk.range(1, 3) as u8 };
     t.arr_guard = rk.chance(3, 4);
     t.knob_seed = rk.next();
@@ -782,8 +862,8 @@ pub fn gen_sweep(seed: u64, o: &GenOpts) -> Trace {
         let m = message(&mut rw, &sw, kind, &mut wire);
         wire.truncate(m.start + m.head_len);
         c.truth.push(MsgTruth { total: m.head_len, body: Body::None, ..m });
-        // a few bytes of what follows (body / next message)
-        let n = rw.below(12);
+        // a few bytes of what follows (body / next message); in long mode a big body
+        let n = if sw.long && rw.chance(1, 2) { *rw.pick(&[8192usize, 9000, 20000]) } else { rw.below(12) };
         wire.extend(body_bytes(&mut rw, n));
     }
     if o.faults && rf.chance(sw.fault_rate, 16) {
@@ -797,8 +877,12 @@ pub fn gen_sweep(seed: u64, o: &GenOpts) -> Trace {
             c.truth.clear();
         }
     }
-    if wire.len() > 700 {
+    if wire.len() > 700 && !sw.long {
         wire.truncate(700);
+        c.truth.clear();
+    }
+    if wire.len() > 200_000 {
+        wire.truncate(200_000);
         c.truth.clear();
     }
     c.wire = wire;
@@ -844,6 +928,36 @@ pub fn gen_reuse(seed: u64, o: &GenOpts) -> Trace {
         t.ops.push(Op { buf, cfg, entry: draw_entry(&mut rk, cfg), cap: *rk.pick(&[0usize, 1, 3, 8, 16]) });
     }
     t.stable = rk.chance(1, 2);
+    // windows: every op looks at a different window [a..b) of one buffer kept at one address
+    // (junk before the message, so windows that start earlier see bytes a later one did not)
+    if rk.chance(1, 4) {
+        let probe = t.ops.last().unwrap().buf.clone();
+        let mut big: Vec<u8> = (0..rk.below(12)).map(|_| *rk.pick(PAL)).collect();
+        if rk.chance(1, 2) {
+            big.extend_from_slice(b"junk ");
+        }
+        let off = big.len();
+        big.extend_from_slice(&probe);
+        let k = t.ops.len();
+        for (i, op) in t.ops.iter_mut().enumerate() {
+            let inner = off + rk.below(probe.len() + 1);
+            let a = if i + 1 == k {
+                if rk.chance(1, 2) {
+                    0
+                } else {
+                    off
+                }
+            } else {
+                *rk.pick(&[0usize, off, off, inner])
+            };
+            let b = if i + 1 == k { big.len() } else { rk.range(a.min(big.len()), big.len()) };
+            op.buf = big[a.min(b)..b].to_vec();
+        }
+        // the longest op must contain the others for them to share memory: make the first op the whole buffer's twin
+        t.stable = true;
+        t.ops.insert(0, Op { buf: big.clone(), cfg: 0, entry: 1, cap: 16 });
+        return t;
+    }
     // growing-prefix histories: ops are prefixes of the probe
     if rk.chance(1, 3) {
         let probe = t.ops.last().unwrap().buf.clone();
@@ -870,7 +984,7 @@ pub fn gen_adversarial(seed: u64, max_len: usize) -> Trace {
         _ => 0,
     };
     t.entry = draw_entry(&mut rk, t.cfg);
-    t.cap = *rk.pick(&[0usize, 4, 64, 4096]);
+    t.cap = *rk.pick(&[0usize, 4, 64, 4096, 70000]);
     t.backend = rk.below(4) as u8;
     t.arr_guard = true;
     t.knob_seed = rk.next();
@@ -886,7 +1000,7 @@ pub fn gen_adversarial(seed: u64, max_len: usize) -> Trace {
         Kind::Resp => v.extend_from_slice(b"HTTP/1.1 200 OK\r\n"),
         _ => {}
     }
-    let fam = rk.below(9);
+    let fam = rk.below(10);
     match (kind, fam) {
         (Kind::Chunk, _) => {
             v.extend_from_slice(b"1a ;");
@@ -909,8 +1023,27 @@ pub fn gen_adversarial(seed: u64, max_len: usize) -> Trace {
                 v.extend_from_slice(b" HTTP/1.1\r\n");
             }
             while v.len() < target_len {
-                match fam % 8 {
-                    0 | 1 => {
+                match fam {
+                    9 => {
+                        // tens of thousands of tiny lines (ignored when the config says so): line
+                        // counters must not wrap or saturate
+                        for _ in 0..r.range(1000, 40000) {
+                            v.extend_from_slice(b"@\n");
+                        }
+                    }
+                    8 => {
+                        for _ in 0..r.range(1, 400) {
+                            v.extend_from_slice(b"a:\n");
+                        }
+                    }
+                    0 => {
+                        // one value folded over the whole input (depth = number of lines)
+                        v.extend_from_slice(b"X-Fold: a\r\n");
+                        while v.len() < target_len {
+                            v.extend_from_slice(b" b\r\n");
+                        }
+                    }
+                    1 => {
                         // long runs of fold lines
                         v.extend_from_slice(b"X-Fold: a\r\n");
                         for _ in 0..r.range(1, 200) {
@@ -954,7 +1087,7 @@ pub fn gen_adversarial(seed: u64, max_len: usize) -> Trace {
                             v.extend_from_slice(b"a:b\n");
                         }
                     }
-                    _ => {
+                    7 | _ => {
                         // whitespace-only lines / leading whitespace
                         for _ in 0..r.range(1, 300) {
                             v.extend_from_slice(b"  \t \r\n");
